@@ -26,19 +26,38 @@ Proof.
   intros Hp Hd Hz Hdp Hf Hn Hop. rewrite (c03_int_dec_exact lower top p op t z m' e' Hp Hd Hz Hn Hop).
   rewrite (Qcompare_comp _ _ (Qeq_refl (inject_Z z)) _ _ (parse_float_exact t neg D e10 m' e' Hdp Hf Hn)). reflexivity.
 Qed.
+(* the same without assuming that the literal is accepted: a literal denoting a FINITE float64 is
+   never refused *)
+Theorem c03_float_dec_finite p op t m e neg D e10 :
+  p <> [] -> denote top p = Ok (GF64 (FFin m e)) ->
+  dec_parts t = Some (neg, D, e10) -> dec_is_finite_float64 D e10 -> is_rel op ->
+  P (QCompare p op (VDouble t)) = mkOut (rel_holds op (Some (Qcompare (Qval m e) (Qdec neg D e10)))) ErrNone None.
+Proof.
+  intros Hp Hd Hdp Hf Hop. destruct (parse_float_accepts t neg D e10 Hdp Hf) as (m' & e' & Hn).
+  exact (c03_float_dec_value p op t m e neg D e10 m' e' Hp Hd Hdp (finite_is_float64 D e10 Hf) Hn Hop).
+Qed.
+
+Theorem c03_int_dec_finite p op t z neg D e10 :
+  p <> [] -> denote top p = Ok (GInt z) -> Z.abs z <= two53 ->
+  dec_parts t = Some (neg, D, e10) -> dec_is_finite_float64 D e10 -> is_rel op ->
+  P (QCompare p op (VDouble t)) = mkOut (rel_holds op (Some (Qcompare (inject_Z z) (Qdec neg D e10)))) ErrNone None.
+Proof.
+  intros Hp Hd Hz Hdp Hf Hop. destruct (parse_float_accepts t neg D e10 Hdp Hf) as (m' & e' & Hn).
+  exact (c03_int_dec_value p op t z neg D e10 m' e' Hp Hd Hz Hdp (finite_is_float64 D e10 Hf) Hn Hop).
+Qed.
 End WithLower.
 
 (* "1.5", "-2.25", "1.0e3", "0.0": the premises hold *)
 Example dec_examples :
-  (dec_parts [49;46;53]%N = Some (false, 15, -1) /\ dec_is_float64 15 (-1)) /\
-  (dec_parts [45;50;46;50;53]%N = Some (true, 225, -2) /\ dec_is_float64 225 (-2)) /\
-  (dec_parts [49;46;48;101;51]%N = Some (false, 10, 2) /\ dec_is_float64 10 2) /\
-  (dec_parts [48;46;48]%N = Some (false, 0, -1) /\ dec_is_float64 0 (-1)).
+  (dec_parts [49;46;53]%N = Some (false, 15, -1) /\ dec_is_finite_float64 15 (-1)) /\
+  (dec_parts [45;50;46;50;53]%N = Some (true, 225, -2) /\ dec_is_finite_float64 225 (-2)) /\
+  (dec_parts [49;46;48;101;51]%N = Some (false, 10, 2) /\ dec_is_finite_float64 10 2) /\
+  (dec_parts [48;46;48]%N = Some (false, 0, -1) /\ dec_is_finite_float64 0 (-1)).
 Proof.
   split; [|split; [|split]]; (split; [vm_compute; reflexivity|]).
-  - right. exists 3, (-1). split; [unfold two53; lia|]. split; [lia|]. vm_compute. reflexivity.
-  - right. exists 9, (-2). split; [unfold two53; lia|]. split; [lia|]. vm_compute. reflexivity.
-  - right. exists 125, 3. split; [unfold two53; lia|]. split; [lia|]. vm_compute. reflexivity.
+  - right. exists 3, (-1). split; [unfold two53; lia|]. split; [lia|]. split; vm_compute; reflexivity.
+  - right. exists 9, (-2). split; [unfold two53; lia|]. split; [lia|]. split; vm_compute; reflexivity.
+  - right. exists 125, 3. split; [unfold two53; lia|]. split; [lia|]. split; vm_compute; reflexivity.
   - left. reflexivity.
 Qed.
 
